@@ -12,7 +12,9 @@
 (* outside the stated domain (empty names, numbers >= 2^32-1) are only     *)
 (* required to have completed (C13); "call" events are the other public   *)
 (* entry points (text / typed trace remapping, signatures, try_parse) run  *)
-(* on arbitrary Unicode text, for which only completion is required here.  *)
+(* on arbitrary Unicode text, for which only completion is required here;  *)
+(* "soup" events summarise bounded-exhaustive token strings run through    *)
+(* the text entry points (number tried, the failing ones).                 *)
 (***************************************************************************)
 EXTENDS Integers, Sequences, TLC, TLCExt, Json, IOUtils, Retrace, MappingSyntax
 
@@ -40,6 +42,7 @@ Completed(ev) ==
 Conforms(ev) ==
   CASE ev.t = "load" -> TRUE
     [] ev.t = "call" -> Completed(ev)
+    [] ev.t = "soup" -> ev.failing = <<>>          \* bounded-exhaustive token strings: every call completed
     [] ev.t = "q" ->
          /\ Completed(ev)
          /\ LET s == Session[ev.sid] IN
